@@ -246,3 +246,83 @@ func nestSub(r *core.Run, name string, cfg core.Cfg, depth int, fn func(s *core.
 	s.Transitions.Store(s.Evals.Load())
 	s.Done()
 }
+
+// attribute syntax: words over tokens of the {...} attribute language placed behind ATX and Setext headings
+var attrToks = []string{"a", "1", " ", "=", "\"", "'", "#", ".", "id", "class", "[", "]", ",", "\\", "-", "true", "}", "{", ":"}
+var attrTemplates = []string{"# h {§}", "# h {§", "h {§}\n===", "## h {#i §}"}
+
+// attrSub runs fn on every attribute document: each template with § replaced by every word of ≤n tokens over attrToks.
+func attrSub(r *core.Run, name string, cfg core.Cfg, n int, fn func(s *core.Sub, cv *core.Conv, w []byte)) {
+	parts := make([][]string, len(attrTemplates))
+	for i, t := range attrTemplates {
+		parts[i] = strings.SplitN(t, "§", 2)
+	}
+	wordsSub(r, name, fmt.Sprintf("each word placed in the attribute block of %q under %s (needs parser.WithAttribute); distinct = word digest", attrTemplates, cfg),
+		attrToks, n, func(s *core.Sub, w int) func([]byte) uint64 {
+			cv := core.NewConv(cfg)
+			var doc []byte
+			return func(word []byte) uint64 {
+				for _, p := range parts {
+					doc = append(append(append(doc[:0], p[0]...), word...), p[1]...)
+					fn(s, cv, doc)
+					s.Evals.Add(1)
+				}
+				return core.Hash(word)
+			}
+		})
+}
+
+// replication families: a short unit repeated n times for EVERY n up to a bound, so that any internal buffer or
+// threshold (128 line statistics, a 4096-byte write buffer, ...) is crossed at every possible phase
+var replUnits = []string{"a", "- a", "1. a", "> a", "# a", "a\nb", "- a\n  b", "> - a", "- > a", "***", "`a`", "[a](b)", "<b>x</b>", "```\na\n```", "a  ", "- a\n\n  b", "  - a", "* a\n* b"}
+
+// ReplDocs calls f(unit, sep, n, doc) for doc = (unit sep)^n, every unit, sep in {"\n","\n\n"}, n = 1..maxN.
+func ReplDocs(maxN int, f func(unit, sep string, n int, doc []byte)) int {
+	cnt := 0
+	for _, u := range replUnits {
+		for _, sep := range []string{"\n", "\n\n"} {
+			var doc []byte
+			for n := 1; n <= maxN; n++ {
+				doc = append(append(doc, u...), sep...)
+				f(u, sep, n, doc)
+				cnt++
+			}
+		}
+	}
+	return cnt
+}
+
+// replSub runs fn on every replication document under cfg as one sub-check.
+func replSub(r *core.Run, name string, cfg core.Cfg, maxN int, fn func(s *core.Sub, cv *core.Conv, w []byte)) {
+	type job struct{ u, sep string }
+	var jobs []job
+	for _, u := range replUnits {
+		for _, sep := range []string{"\n", "\n\n"} {
+			jobs = append(jobs, job{u, sep})
+		}
+	}
+	s := r.Sub(name, fmt.Sprintf("every document (unit sep)^n for unit in %q, sep in {LF, LF LF} and EVERY n from 1 to %d (so that any internal threshold is crossed at every phase), under %s", replUnits, maxN, cfg))
+	s.Planned = int64(len(jobs) * maxN)
+	s.Bound = fmt.Sprintf("%d units × 2 separators × n=1..%d", len(replUnits), maxN)
+	complete := core.ForEachIndex(len(jobs), core.Workers(), func(w int) func(int) {
+		cv := core.NewConv(cfg)
+		return func(i int) {
+			var doc []byte
+			for n := 1; n <= maxN; n++ {
+				doc = append(append(doc, jobs[i].u...), jobs[i].sep...)
+				fn(s, cv, doc)
+				s.Evals.Add(1)
+			}
+			s.Distinct(core.Hash(doc))
+			if i%7 == 0 {
+				s.AddSample(fmt.Sprintf("(%q %q)^n, n=1..%d", jobs[i].u, jobs[i].sep, maxN))
+			}
+		}
+	}, r.Expired)
+	if !complete {
+		s.Incomplete("internal deadline reached")
+	}
+	s.States.Store(s.Evals.Load())
+	s.Transitions.Store(s.Evals.Load())
+	s.Done()
+}
